@@ -1,6 +1,6 @@
 From Coq Require Import ZArith List String.
 From DRX Require Import Py.PyBytes Py.Val.
-From DRX Require Model.ScoreIO Model.RiffIO Model.IndexIO.
+From DRX Require Model.ScoreIO Model.RiffIO Model.IndexIO Model.XtractIO.
 Import ListNotations.
 Open Scope string_scope.
 
@@ -18,7 +18,8 @@ Definition table : list (string * (val -> val)) := [
   ("parse_lctx", Model.IndexIO.run_parse_lctx);
   ("parse_lnam", Model.IndexIO.run_parse_lnam);
   ("parse_vwlb", Model.IndexIO.run_parse_vwlb);
-  ("parse_vwcf", Model.IndexIO.run_parse_vwcf)
+  ("parse_vwcf", Model.IndexIO.run_parse_vwcf);
+  ("extract", Model.XtractIO.run_extract)
 ].
 
 Fixpoint lookup (n : string) (t : list (string * (val -> val))) : option (val -> val) :=
